@@ -779,6 +779,9 @@ impl Check for IoErrCheck {
                     continue;
                 }
                 for kind in [FaultKind::Eio, FaultKind::PartialEio, FaultKind::Enospc] {
+                    if kind == FaultKind::PartialEio && matches!(op, Op::Compact) && avoid.iter().any(|a| a == "partial_write_in_compaction") {
+                        continue;
+                    }
                     let f = IoFocus { target: t, step, kind, continue_in_process: rng.chance(0.6) };
                     let before = res.viols.len();
                     self.run_fault(&ops, &f, case.seed, &avoid, &mut res);
